@@ -32,7 +32,7 @@ def check(pid, tier, seed, replay=None):
             rng = random.Random(seed)
             chains = []
             ctxs = ["none", "fields", "ts"]
-            sets = ["", "unixms", "durint", "", "unixnano", "dursec", "prec3", "", "unix", "unixmicro"]
+            sets = ["", "unixms", "durint", "rfc3339nano", "unixnano", "dursec", "prec3", "rfc850", "unix", "unixmicro", "", "longlayout", "rfc1123z"]
             for i, s in enumerate(seqs):
                 # every chain on an enabled and on a level-filtered logger; context, finalizer, argument value class and
                 # global settings rotate (the fast paths are allocation-free for every value and setting, not only the plain ones)
